@@ -253,12 +253,19 @@ func bindNames(vars map[string]Val, fn *ssa.Function, args []Val, results []Val)
 		a.Typ = fn.Params[0].Type()
 		vars["self"] = a
 	}
+	off := 0
+	if fn.Signature.Recv() != nil {
+		off = 1
+	}
 	for i, p := range fn.Params {
 		if i < len(args) {
 			a := args[i]
 			a.Typ = p.Type()
 			vars[p.Name()] = a
 			vars[p.Name()+"0"] = a
+			if i >= off {
+				vars[fmt.Sprintf("arg%d", i-off)] = a
+			}
 		}
 	}
 	rs := fn.Signature.Results()
@@ -791,6 +798,18 @@ func (f *Frame) ifaceModular(instr ssa.Instruction, c *ssa.CallCommon, ct *Contr
 	g := f.g
 	g.usedContracts[ct.Key] = true
 	sig := c.Signature()
+	if len(ct.Requires) > 0 {
+		ev0 := &Eval{g: g, st: st, vars: map[string]Val{}, pkg: c.Method.Pkg()}
+		bindIfaceNames(ev0.vars, sig, recv, args, nil)
+		for _, r := range ct.Requires {
+			t, err := ev0.evalBool(r.Expr)
+			if err != nil {
+				g.specError(ct, r, err)
+				continue
+			}
+			g.oblige(st, "pre", pos, f.text(pos)+" :: "+r.Text, t)
+		}
+	}
 	if ct.Pure {
 		all := append([]Val{recv}, args...)
 		var out []Val
@@ -1420,6 +1439,16 @@ func (f *Frame) checkAtCall(instr ssa.Instruction, c *ssa.CallCommon, st *State)
 
 // varBefore: value of a source variable just before instruction idx of block blk.
 func (f *Frame) varBefore(blk *ssa.BasicBlock, idx int, name string, pos token.Pos, st *State) (Val, bool) {
+	if strings.HasSuffix(name, "0") {
+		for i, p := range f.fn.Params {
+			if p.Name()+"0" == name {
+				if f.inlineArgs != nil && i < len(f.inlineArgs) {
+					return f.inlineArgs[i], true
+				}
+				return f.val(p, p.Type()), true
+			}
+		}
+	}
 	obj := f.g.ctx.scopeLookup(f.fn, pos, name)
 	cands := map[ssa.Value]bool{}
 	for o, vs := range f.debugVals {
@@ -1470,4 +1499,34 @@ func (f *Frame) varBefore(blk *ssa.BasicBlock, idx int, name string, pos token.P
 		}
 	}
 	return Val{}, false
+}
+
+// checkAtReturn: `at-return` assertions over the locals in scope at a return (ret0.. are the returned values).
+func (f *Frame) checkAtReturn(ret *ssa.Return, st *State, rv []Val) {
+	g := f.g
+	ct := f.contract
+	if ct == nil || len(ct.AtReturn) == 0 {
+		return
+	}
+	blk := ret.Block()
+	idx := len(blk.Instrs) - 1
+	for _, c := range ct.AtReturn {
+		ev := &Eval{g: g, st: st, old: f.entry, fn: f.fn, pos: ret.Pos(), vars: map[string]Val{}, pkg: pkgOf(f.fn)}
+		for i, v := range rv {
+			ev.vars[fmt.Sprintf("ret%d", i)] = v
+		}
+		ev.lookup = func(name string) (Val, bool) { return f.varBefore(blk, idx, name, ret.Pos(), st) }
+		t, err := ev.evalBool(c.Expr)
+		if err != nil {
+			if strings.Contains(err.Error(), "unresolved identifier") {
+				// a local that is not in scope at this return: the clause does not speak about this site
+				g.atReturnSkipped[c.Text]++
+				continue
+			}
+			g.specError(ct, c, err)
+			continue
+		}
+		g.atReturnUsed[c.Text]++
+		g.oblige(st, "at-return", ret.Pos(), f.text(ret.Pos())+" :: "+c.Text, t)
+	}
 }
